@@ -137,6 +137,13 @@ def rule_name_guards(ctx: Ctx):
                 truthy = any((f"{W} := getattr" in c and o) or (presence_test(c_, o) == (W, True)) for (c, o), (c_, _) in zip(texts, guards))
                 # the value is escaped before it is interpolated
                 esc = any(isinstance(s, ast.Assign) and norm(s.targets[0]) == W and f"re.escape({W}" in norm(s.value) for s in stmts_local(loop.body)) if loop else False
+                # ... or in place, inside the appended alternative, with no other use of the raw value there
+                if not esc and f"re.escape({W}" in norm(n.args[0]):
+                    raw_uses = [x for x in ast.walk(n.args[0]) if isinstance(x, ast.Name) and x.id == W and not (
+                        isinstance(getattr(x, "parent", None), ast.Call) and dotted(x.parent.func) == "re.escape")
+                        and not (isinstance(getattr(x, "parent", None), ast.Attribute) and isinstance(getattr(x.parent, "parent", None), ast.Call)
+                                 and isinstance(getattr(x.parent.parent, "parent", None), ast.Call) and dotted(x.parent.parent.parent.func) == "re.escape")]
+                    esc = not raw_uses
                 # what is_valid_name judges must be the citation's own name, not a trimmed / rewritten copy: a name that fails the rule
                 # (e.g. ends in a period) could pass once altered, and the pattern would then be built from a string the rule never saw
                 from ..core import order_index
